@@ -158,6 +158,8 @@ fn main() {
             "T8a32a32" => tree_cmd::<tree::T8a32a32>(&a),
             "T32u128u64" => tree_cmd::<tree::T32u128u64>(&a),
             "T8u128u8" => tree_cmd::<tree::T8u128u8>(&a),
+            "T32u32bps" => tree_cmd::<tree::T32u32bps>(&a),
+            "T8u8bps" => tree_cmd::<tree::T8u8bps>(&a),
             t => panic!("unknown tree type {t}"),
         },
         "hset" => match a.get("type").unwrap_or("HU64") {
@@ -166,6 +168,9 @@ fn main() {
             "HU8" => hset_cmd::<hset::HU8>(&a),
             "HWeak" => hset_cmd::<hset::HWeak>(&a),
             "HA32" => hset_cmd::<hset::HA32>(&a),
+            "HU128" => hset_cmd::<hset::HU128>(&a),
+            "HTicket" => hset_cmd::<hset::HTicket>(&a),
+            "HBps" => hset_cmd::<hset::HBps>(&a),
             t => panic!("unknown hset type {t}"),
         },
         "aset" => match a.get("type").unwrap_or("A8u8") {
